@@ -70,6 +70,8 @@ BNear(a, b, t) == IF BLess(a, b) THEN BLeq(BSub(b, a), t) ELSE BLeq(BSub(a, b), 
 Step ==
   \/ /\ Ev.e = "boundaryNbhd" /\ (IF BoundaryNbhdOK(Ev) THEN TRUE ELSE FALSE) /\ UNCHANGED <<sum, cnt>>
   \/ /\ Ev.e = "boundaryLite" /\ (IF BoundaryLiteOK(Ev) THEN TRUE ELSE FALSE) /\ UNCHANGED <<sum, cnt>>
+  \/ /\ Ev.e = "boundaryTwice" /\ ValidCell(Ev.h) /\ Ev.same = 1 /\ UNCHANGED <<sum, cnt>>     \* a function of its argument: the same
+                                                                                               \* whatever was asked before
   \/ /\ Ev.e = "areaStart" /\ sum' = BZero /\ cnt' = 0
   \/ /\ Ev.e = "area" /\ ValidCell(Ev.h) /\ Ev.r = 0 /\ Ev.a.s = 0
      /\ sum' = BAdd(sum, Ev.a.l) /\ cnt' = cnt + 1
